@@ -2673,3 +2673,71 @@ package connect
 //@   assigns nothing
 //@   ensures res != nil ==> coded(res) && codeOf(res) == 14   // label: a-bad-url-is-unavailable
 //@   ensures (res == nil) == (callres("url.ParseRequestURI", 1, 1) == nil)
+
+// protobuf_util.go: the canonical procedure path always starts with a slash
+//@ func extractProtoPath(url) res
+//@   tags C12, C17
+//@   assigns nothing
+//@   ensures |res| >= 1 && res[0] == '/'   // label: always-starts-with-a-slash
+
+// duplex_http_call.go: what the request goroutine does with the outcome of
+// HTTPClient.Do (sequential semantics of its body): any failure is recorded
+// as the call's coded error, a response is validated before it is exposed.
+//@ trusted func HTTPClient.Do(c, request) (res, err)
+//@   assigns nothing
+//@   ensures (err == nil) == (res != nil)
+//@   doc: "Do sends an HTTP request and returns an HTTP response; a non-nil response comes with a nil error and vice versa (net/http.Client.Do). Its effects are on the network, outside the modelled state."
+//@ trusted func field:duplexHTTPCall.validateResponse(response) res
+//@   assigns everything
+//@   doc: "the protocol's validateResponse (both are under contract: never the zero code)"
+//@ func (*duplexHTTPCall).makeRequest(d)
+//@   tags C04, C06, C15
+//@   requires d != nil && d.httpClient != nil && d.request != nil && d.requestBodyReader != nil && d.validateResponse != nil
+//@   assigns everything
+//@   ensures callres("HTTPClient.Do", 1, 1) != nil ==> d.err != nil && (old(d.err) == nil ==> coded(d.err) && classified(d.err))   // label: a-failed-round-trip-is-recorded-as-a-coded-error
+//@   assert@call(field:duplexHTTPCall.validateResponse#1): arg0 == callres("HTTPClient.Do", 1, 0) && d.response == arg0   // label: the-response-is-validated-before-anyone-reads-it
+
+// misc accessors
+//@ func (*Error).AddDetail(e, d)
+//@   tags C02
+//@   requires e != nil
+//@   assigns e.details, elems(e.details)
+//@   ensures len(e.details) == old(len(e.details)) + 1   // label: one-more-detail
+//@ func (*Request).Any(r) res
+//@   tags C01
+//@   requires r != nil
+//@   assigns nothing
+//@ func (*Response).Any(r) res
+//@   tags C01
+//@   requires r != nil
+//@   assigns nothing
+//@ func (*connectUnaryClientConn).Spec(cc) res
+//@   tags C12
+//@   requires cc != nil
+//@   assigns nothing
+//@   ensures res.Procedure == cc.spec.Procedure && res.StreamType == cc.spec.StreamType && res.IsClient == cc.spec.IsClient
+//@ func (*connectStreamingClientConn).Spec(cc) res
+//@   tags C12
+//@   requires cc != nil
+//@   assigns nothing
+//@   ensures res.Procedure == cc.spec.Procedure && res.StreamType == cc.spec.StreamType && res.IsClient == cc.spec.IsClient
+//@ func (*grpcClientConn).Spec(cc) res
+//@   tags C12
+//@   requires cc != nil
+//@   assigns nothing
+//@   ensures res.Procedure == cc.spec.Procedure && res.StreamType == cc.spec.StreamType && res.IsClient == cc.spec.IsClient
+//@ func (*connectUnaryHandlerConn).Spec(hc) res
+//@   tags C12
+//@   requires hc != nil
+//@   assigns nothing
+//@   ensures res.Procedure == hc.spec.Procedure && res.StreamType == hc.spec.StreamType && res.IsClient == hc.spec.IsClient
+//@ func (*connectStreamingHandlerConn).Spec(hc) res
+//@   tags C12
+//@   requires hc != nil
+//@   assigns nothing
+//@   ensures res.Procedure == hc.spec.Procedure && res.StreamType == hc.spec.StreamType && res.IsClient == hc.spec.IsClient
+//@ func (*grpcHandlerConn).Spec(hc) res
+//@   tags C12
+//@   requires hc != nil
+//@   assigns nothing
+//@   ensures res.Procedure == hc.spec.Procedure && res.StreamType == hc.spec.StreamType && res.IsClient == hc.spec.IsClient
